@@ -156,6 +156,7 @@ def bind(run):
     ngrid = len(scen)
     scen += cc.directed(rng)
     scen += cc.s2s_directed(rng)
+    scen += cc.float_witness()
     scen += cc.explore(rng, NEXPLORE[run.tier])
     judge(run, scen)
     run.extra_cov.update({"grid_scenarios_price": len(price), "grid_scenarios_pods": len(pods), "explorer_scenarios": NEXPLORE[run.tier]})
